@@ -74,7 +74,9 @@ def _sub_symbols_in_number(
 def _sub_symbols_in_expression(
     parameter: sympy.Expr, symbols_map: Dict[sympy.Symbol, Parameter]
 ) -> sympy.Expr:
-    return parameter.subs(symbols_map)
+    # All symbols are replaced at once: values that mention other keys of the map
+    # must not be substituted a second time (bare symbols are looked up only once).
+    return parameter.subs(symbols_map, simultaneous=True)
 
 
 @sub_symbols.register
